@@ -63,6 +63,7 @@ class Contract:
         self.oracles: dict[str, dict] = {}
         self.lemmas: list[Callable] = []  # extra ghost facts (each is itself an obligation before being assumed)
         self.result_tag: Optional[str] = None
+        self.result_alternatives: Optional[tuple] = None  # with result_tag "any": the kinds a result can have (forked at call sites)
         self.self_cls: Optional[str] = None  # static class of `self` ('Node' | 'Tree')
         self.is_generator = False
         self.must_fail: list[tuple[str, Callable]] = []
